@@ -203,6 +203,9 @@ func c06(c *Ctx) {
 					if v, isC := ev.Args[1].Int64(); isC && v == closeMsg && d.Kind == core.KCall && d.Ref == interface{}(fcm) {
 						if cv, isC2 := d.Args[0].Int64(); isC2 && cv == tooBig && tooBig == 1009 {
 							sent = true
+							if !futureDeadline(ev.Args[3]) {
+								ok9, why9 = false, "the 1009 close frame is sent with a deadline that is not now + a positive constant (it may already have passed, and then nothing is sent)"
+							}
 						}
 					}
 				}
